@@ -86,31 +86,92 @@ func configsFor(tier string) []string {
 	return []string{"amd64"}
 }
 
-// runRules runs the named rules on one configuration (optionally with an overlay).
-func runRules(names []string, cfg string, overlay map[string][]byte) (list []ob.Obligation, counts map[string]int) {
+// splitSel splits a rule selector "RULE@sub1|sub2" into the rule name and the
+// construct substrings it is restricted to (none = all constructs).
+func splitSel(sel string) (string, []string) {
+	if i := strings.Index(sel, "@"); i >= 0 {
+		return sel[:i], strings.Split(sel[i+1:], "|")
+	}
+	return sel, nil
+}
+
+func selMatch(filters []string, construct string) bool {
+	if len(filters) == 0 {
+		return true
+	}
+	for _, f := range filters {
+		if strings.Contains(construct, f) {
+			return true
+		}
+	}
+	return false
+}
+
+// runRules runs the selected rules on one configuration (optionally with an overlay).
+func runRules(sels []string, cfg string, overlay map[string][]byte) (list []ob.Obligation, counts map[string]int) {
 	m := model.Load(model.Config{Name: cfg, RepoDir: *flagRepo, Overlay: overlay})
 	counts = map[string]int{}
-	for _, n := range names {
-		r := rules.Get(n)
+	// several selectors may name the same rule: run it once
+	type job struct {
+		name    string
+		filters [][]string
+		all     bool
+	}
+	var jobs []*job
+	byName := map[string]*job{}
+	for _, sel := range sels {
+		n, f := splitSel(sel)
+		j := byName[n]
+		if j == nil {
+			j = &job{name: n}
+			byName[n] = j
+			jobs = append(jobs, j)
+		}
+		if len(f) == 0 {
+			j.all = true
+		} else {
+			j.filters = append(j.filters, f)
+		}
+	}
+	for _, j := range jobs {
+		r := rules.Get(j.name)
 		if r == nil {
-			model.Fatal("rule %q is not registered", n)
+			model.Fatal("rule %q is not registered", j.name)
 		}
 		if !r.AppliesTo(cfg) {
 			continue
 		}
 		s := &ob.Set{Config: cfg}
 		r.Run(m, s)
+		total := 0
+		for _, o := range s.List {
+			if o.Verdict != ob.Info {
+				total++
+			}
+		}
+		if overlay == nil && cfg == "amd64" && total < r.Floor {
+			model.Fatal("rule %s matched %d constructs in configuration %s, below its floor %d: the rule went blind", j.name, total, cfg, r.Floor)
+		}
 		c := 0
 		for _, o := range s.List {
+			keep := j.all
+			for _, f := range j.filters {
+				if selMatch(f, o.Construct) {
+					keep = true
+				}
+			}
+			if !keep {
+				continue
+			}
 			if o.Verdict != ob.Info {
 				c++
 			}
+			list = append(list, o)
 		}
-		counts[n] = c
-		if overlay == nil && cfg == "amd64" && c < r.Floor {
-			model.Fatal("rule %s matched %d constructs in configuration %s, below its floor %d: the rule went blind", n, c, cfg, r.Floor)
+		counts[j.name] = c
+		if overlay == nil && !j.all && c == 0 {
+			model.Fatal("selector %s@%v matched no construct of rule %s", j.name, j.filters, j.name)
 		}
-		list = append(list, s.List...)
 	}
 	return
 }
